@@ -49,7 +49,9 @@ def _wait(pred, timeout, what):
     if timeout is None or timeout < 0:
         raise WouldBlock(what)
     if w is not None:
-        w.advance_time(timeout)
+        # a wait that times out always lets a little more than its timeout pass (loops of the form
+        # "remaining = deadline - now; if remaining < 0: break; wait(remaining)" rely on that)
+        w.advance_time(timeout + 1e-5)
         w.note_timed_out_wait(what, timeout)
     return False
 
